@@ -959,15 +959,22 @@ def run_group(args):
     outs = [nm for r in res if r['err'] is None for nm in r['names']]
     trace = {}
     if outs:
-        tracer = pyrtl.SimulationTrace(wires_to_track=[block.wirevector_by_name[nm] for nm in outs], block=block)
-        sim = pyrtl.Simulation(tracer=tracer, block=block)
-        ins = {}
-        off = 0
-        for i, w in enumerate(ws):
-            ins['p%d' % i] = [(x >> off) & ((1 << w) - 1) for x in range(n)]
-            off += w
-        sim.step_multiple(ins)
-        trace = tracer.trace
+        try:
+            tracer = pyrtl.SimulationTrace(wires_to_track=[block.wirevector_by_name[nm] for nm in outs], block=block)
+            sim = pyrtl.Simulation(tracer=tracer, block=block)
+            ins = {}
+            off = 0
+            for i, w in enumerate(ws):
+                ins['p%d' % i] = [(x >> off) & ((1 << w) - 1) for x in range(n)]
+                off += w
+            sim.step_multiple(ins)
+            trace = tracer.trace
+        except Exception as e:
+            # one configuration produced a circuit that cannot be simulated: do not lose the others --
+            # rerun every configuration of the group alone; the culprit is then reported by itself
+            if len(cfgs) > 1:
+                return [run_group((ws, [c]))[0] for c in cfgs]
+            res = [{'err': 'Simulation:' + type(e).__name__, 'msg': str(e)[:200]}]
     envs = [env_of(ws, x) for x in range(n)]
     for c, r in zip(cfgs, res):
         orc = FAMS[c['fam']][2]
@@ -1635,7 +1642,19 @@ def run_configs(ctx, cfgs):
             ctx.model_mismatch('Front/C14Harness.v could not be evaluated: %s' % str(e)[-800:], {})
         ctx.notes.append('coq model evaluation %.1fs for %d expressions' % (time.time() - t_q, len(exprs)))
         for idxs, f in futs:
-            for i, r in zip(idxs, f.result()):
+            try:
+                rs = f.result()
+            except Exception as e:       # a worker died: redo its configurations one by one in this process
+                ctx.notes.append('a simulation worker failed (%s); its %d configurations were re-run one by one'
+                                 % (str(e)[:120], len(idxs)))
+                rs = []
+                for i in idxs:
+                    try:
+                        rs.append(run_group((list(cfgs[i]['ws']), [cfgs[i]]))[0])
+                    except Exception as e2:
+                        rs.append({'err': 'HarnessError', 'msg': str(e2)[:200], 'bad': None, 'nontrivial': False,
+                                   'oracle': 'ERRU'})
+            for i, r in zip(idxs, rs):
                 results[i] = r
         ctx.notes.append('simulation+oracle done %.1fs after start of model evaluation' % (time.time() - t_q))
     for i, (c, r) in enumerate(zip(cfgs, results)):
